@@ -198,15 +198,18 @@ func runC13(c *Ctx) {
 		add("LOOK", lookFamily(false), "", profP0, 4)
 		add("LOOP", loopFamily(true), "", profP0, 4)
 	} else {
+		add("BAL", balFamily(), "", profP0, 5)
 		add("CORE<=3", core3, "", profP0, 4)
-		add("CORE<=3", core3, "R", profP0, 4)
+		add("CORE<=3", core3, "R", profP0, 3)
 		add("CORE<=4", core4, "", profP0, 2)
 		add("SEQ k<=2 anchored", seqFamily(2, true), "", profP0, 3)
 		add("ALT", altFamily(false), "", profP0, 2)
 		add("LOOK", lookFamily(false), "", profP0, 1)
-		add("LOOP", loopFamily(true), "", profP0, 1)
+		add("LOOP (non-nullable bodies)", loopFamily(false), "", profP0, 1)
 	}
-	add("BAL", balFamily(), "", profP0, 5)
+	if thorough {
+		add("BAL", balFamily(), "", profP0, 5)
+	}
 	// (ii) STACK sweep relative to each pattern's own initial allocation
 	stack := stackFamily()
 	fs := c.Fam("STACK every L in [0, 4*T0+16]")
